@@ -62,7 +62,7 @@ MUTANTS = [
 ]
 
 def sh(cmd, cwd=None, timeout=1800):
-    return subprocess.run(cmd, shell=True, cwd=cwd, env=ENV, capture_output=True, text=True, timeout=timeout)
+    return subprocess.run(cmd, shell=True, cwd=cwd, env=ENV, capture_output=True, text=True, errors="replace", timeout=timeout)
 
 def revert():
     sh("git checkout -- .", cwd="/repo")
